@@ -18,6 +18,13 @@ extra_notes = {
  'C14-a': 'Same defect as C11-b (found independently by another agent). Initially caught only by the C11 check; C14 was strengthened with the first-contact scenarios and now catches it as well.',
  'C09-b': 'Initially caught only by C01 (mailbox-level lost wake-up); C09 was strengthened with the fine-mailbox scenarios and now catches it as well.',
  'C15-b': 'Also caught by C12 (encode-after-failed-encode), added for this seed.',
+ 'C03-g': 'Caught by C02 and C20 as they stood; C03 was strengthened (sender scheduled, state stash-unstash) and now catches it as well.',
+ 'C15-h': 'Caught by C14 as it stood; C15 was strengthened (pre-phase peer-was-down).',
+ 'C20-h': 'Caught by C15 (once-to-namesake); those scenarios are now a second part of C20.',
+ 'C03-i': 'The same change as C09-i (found independently); caught by C09 as it stood, C03 got state grestart-paused.',
+ 'C10-i': 'Caught by C06 and C07 as they stood; C10 got life=stopping.',
+ 'C14-i': 'First seen through the writer pool shared by the systems of one execution (C11 ask scenarios); the faithful two-peers scenario was added and is part of C11 and C14.',
+ 'C15-i': 'The change of C14-h again (frame header read with a single Read); caught by C11 and C14 as they stood, C15 got the short-reads pre-phase.',
 }
 for d in sorted(glob.glob(root + '/C*/')):
     sid = os.path.basename(d.rstrip('/'))
